@@ -735,19 +735,27 @@ def scenario_update_identity(rng, props, fails, stats):
             return f0 * w, f0 * w, (G2[-1] if inplace else g * w), G2
         return f0, f0_old, g, G
     rec3 = Rec(p)
-    kw3 = dict(kw, fun=rec3.fun, jac=rec3.jac, update_fun_def=upd, maxiter=j + 1, ftol=1e300, ftarget=None)
+    states3 = []
+    kw3 = dict(kw, fun=rec3.fun, jac=rec3.jac, update_fun_def=upd, maxiter=j + 1, ftol=0.0, ftarget=None, maxfun=10000,
+               callback=lambda xk, st: states3.append(copy.deepcopy(st)) or False)
     c, ec = run_once(p, kw3, rec3)
     stats["runs"] += 1
-    if ec is None and c is not None and c.hess_inv.sk.size and "G" in last and c.nit == j:
-        sy = np.einsum("ij,ij->i", np.atleast_2d(c.hess_inv.sk), np.atleast_2d(c.hess_inv.yk))
-        if np.any(sy <= 0):
-            fails.append(("C13", "result carries a correction pair with s.y <= 0 after the gradients were rewritten"))
-        yk = np.atleast_2d(c.hess_inv.yk)
-        GG = last["G"]
-        for row in yk:
-            if not any(np.array_equal(GG[b2] - GG[a2], row) for a2 in range(len(GG)) for b2 in range(a2 + 1, len(GG))):
-                fails.append(("C13", "a returned pair is not a difference of the rewritten gradients"))
-                break
+    if ec is not None and "G" in last:
+        fails.append(("C13", f"run raised {type(ec).__name__} after the update function rewrote the gradients "
+                             f"({'in place' if inplace else 'new arrays'}): {str(ec)[:80]}"))
+    if ec is None and "G" in last and len(states3) >= j:
+        st = states3[j - 1]                 # the state right after the iteration in which the gradients were rewritten
+        sk, yk = np.atleast_2d(st.hess_inv.sk), np.atleast_2d(st.hess_inv.yk)
+        if sk.size:
+            stats["nontrivial"] += 1
+            if np.any(np.einsum("ij,ij->i", sk, yk) <= 0):
+                fails.append(("C13", "state after the rewrite carries a correction pair with s.y <= 0"))
+            GG = last["G"] + [np.array(st.jac, copy=True)]
+            for row in yk:
+                if not any(np.allclose(GG[b2] - GG[a2], row, rtol=1e-12, atol=0) for a2 in range(len(GG))
+                           for b2 in range(a2 + 1, len(GG))):
+                    fails.append(("C13", "a pair carried after the rewrite is not a difference of the rewritten gradients"))
+                    break
     return describe(p, kw)
 
 
